@@ -30,6 +30,7 @@ FUNCS = ["litex.soc.integration.export.get_csr_json", "litex.soc.integration.exp
          "litex.soc.integration.common.get_mem_data"]
 
 NOPS = 4
+_PERIPH = {}
 
 
 class Seq(Mon):
@@ -88,7 +89,8 @@ def build_soc(cfg):
         if k in cfg:
             kw[k] = cfg[k]
     soc = SoCCore(p, **kw)
-    soc.periph = Periph()
+    setattr(soc, cfg.get("periph_name", "periph"), Periph())      # "audio": the alphabetically first CSR owner then owns a CSR memory
+    _PERIPH[id(soc)] = getattr(soc, cfg.get("periph_name", "periph"))      # kept outside the SoC object: AutoCSR scans every attribute
     ext = wishbone.Interface(data_width=32, address_width=32, addressing='word')
     soc.bus.add_master('ext', ext)
     soc.finalize()
@@ -254,7 +256,8 @@ def build(cfgname, K):
                     storages[rname + "_" + c.name] = c
                 elif isinstance(c, CSRStatus):
                     statuses[rname + "_" + c.name] = c
-    free = [soc.periph.c.status]
+    pn = cfg.get("periph_name", "periph")
+    free = [_PERIPH[id(soc)].c.status]
     zbad = {}
     zwit = {}
     Vsig = seq.V
@@ -283,7 +286,7 @@ def build(cfgname, K):
         return z3.Extract(shift + 31, shift, z3.ZeroExt(64, V))
 
     regs_sorted = sorted(storages.items())
-    watch = [n for n, _ in regs_sorted if n.startswith(("periph_", "ctrl_scratch", "timer0_reload"))]
+    watch = [n for n, _ in regs_sorted if n.startswith((pn + "_", "ctrl_scratch", "timer0_reload"))]
 
     def others_unchanged(fr, except_name):
         return z3.And(*[fr[o.storage] == (o.storage.reset.value & (2**len(o.storage) - 1)) for n, o in regs_sorted if n != except_name])
@@ -360,9 +363,9 @@ def build(cfgname, K):
                 return None
             zbad["read_back_%s_through_generated_accessor" % nm] = (goal_r, chk_r)
     # status register read: periph_c
-    if "periph_c" in acc and acc["periph_c"]["read"] and cdw == 32:
-        rops = acc["periph_c"]["read"][0]
-        st = soc.periph.c.status
+    if (pn + "_c") in acc and acc[pn + "_c"]["read"] and cdw == 32:
+        rops = acc[pn + "_c"]["read"][0]
+        st = _PERIPH[id(soc)].c.status
 
         def goal_s(U):
             ops = [(False, csr_base + off, None) for off in rops]
@@ -464,12 +467,13 @@ CFGS = {
     "wb_csr32_aw15": dict(csr_address_width=15),
     "wb_csr32_crossbar": dict(bus_interconnect="crossbar"),
     "wb_csr32_paging1000": dict(csr_paging=0x1000),
+    "wb_csr32_memfirst": dict(periph_name="audio"),
 }
 
 
 def jobs(tier):
     T = tier == "thorough"
-    names = ["wb_csr32", "wb_csr32_paging400", "wb_csr32_little"] + (["wb_csr8", "axil_csr32", "wb_csr32_aw15", "wb_csr32_crossbar", "wb_csr32_paging1000"] if T else [])
+    names = ["wb_csr32", "wb_csr32_paging400", "wb_csr32_little", "wb_csr32_memfirst"] + (["wb_csr8", "axil_csr32", "wb_csr32_aw15", "wb_csr32_crossbar", "wb_csr32_paging1000"] if T else [])
     js = [Job("soc_%s" % n, build, dict(cfgname=n, K=(46 if "csr8" in n else 30)), cost=60, timeout_s=3400) for n in names]
     from vf.props import c14_mem
     js += c14_mem.jobs(tier)
